@@ -217,6 +217,24 @@ def step (s : St) (ts : List String) : St × String :=
     match (initP.run rest) with
     | some (s', []) => (s', joinSp (["ok", "|"] ++ showState s' ++ showSuccOrder s'))
     | _ => (s, "bad-op")
+  | ["reg", kind, k] =>
+    -- harness-level configuration change (not an `Op`): a custom feature is registered in the
+    -- FeatureDict mid-session (`tracks.features[...] = …`, `.update`, `|=`, `setdefault`)
+    match k.toNat? with
+    | some key =>
+      let s' : St :=
+        if kind == "node" then { s with regNode := if s.regNode.contains key then s.regNode else s.regNode ++ [key] }
+        else { s with regEdge := if s.regEdge.contains key then s.regEdge else s.regEdge ++ [key] }
+      (s', joinSp (["ok", "|"] ++ showState s' ++ showSuccOrder s'))
+    | none => (s, "bad-op")
+  | "delnodepx" :: rest =>
+    -- `UserDeleteNode(tracks, node, pixels=<known mask>)`: same user action as `delnode`, with the
+    -- optional pixels argument given (top level: history entry + refresh, via `St.commit`)
+    match ((do let n ← nat; let px ← listOf nat; pure (n, px)) : P (Node × List Pix)).run rest with
+    | some ((n, px), []) =>
+      let (s', out) := St.commit (s.uDeleteNode n (some px)) none
+      (s', joinSp (showOut out ++ ["|"] ++ showState s' ++ showSuccOrder s'))
+    | _ => (s, "bad-op")
   | _ =>
     match (opP.run ts) with
     | some (op, []) =>
